@@ -1,0 +1,15 @@
+//go:build verif
+
+package verifapi
+
+// DirActive returns the sorted paths of the directories tracked by the
+// directory repository.
+func (h *Handle) DirActive() []string {
+	return h.c.DirRepo().VerifActive()
+}
+
+// DirCounts returns the roots and, index-aligned, the directory repository's
+// per-root counters.
+func (h *Handle) DirCounts() ([]string, []uint64) {
+	return h.c.DirRepo().VerifCounts()
+}
